@@ -25,6 +25,15 @@ func main() { common.Main("C02", run) }
 
 type st struct{ same, differs, rejected, notclean, known int }
 
+func hasPattern(prog *ast.Statements, p string) bool {
+	for _, k := range KnownPatterns(prog) {
+		if k == p {
+			return true
+		}
+	}
+	return false
+}
+
 func sameMultiset(a, b []string) bool {
 	if len(a) != len(b) {
 		return false
@@ -74,7 +83,8 @@ func one(c *Ctx, src []byte, toModel bool, s *st) {
 			sig := RTSig(prog, mode, res[i])
 			// none of the recorded formatter findings changes the TEXT of a comment: in normal mode (comments are kept) the
 			// comment literals of the source and of the printed text must be the same sequence up to order
-			if !compact && strings.HasPrefix(sig, "roundtrip:") && !sameMultiset(CommentTexts(src), CommentTexts(txts[i])) {
+			// (except comment-in-expression-position, where a line comment swallows the rest of its line)
+			if !compact && strings.HasPrefix(sig, "roundtrip:") && !hasPattern(prog, "comment-in-expression-position") && !sameMultiset(CommentTexts(src), CommentTexts(txts[i])) {
 				sig = "roundtrip-unclassified:normal:comment-text-changed"
 			}
 			if strings.HasPrefix(sig, "roundtrip:") {
@@ -252,6 +262,12 @@ func inspectCase(c *Ctx, lit string) {
 		defer func() {
 			if r := recover(); r != nil {
 				txt = ""
+				// the literal is EVALUATED to obtain the function object: the documented guards (memory budget, depth) of the
+				// evaluator are not formatter failures (e.g. `(a,b) => x || 2 : 9223372036854775807` is a range with a huge bound)
+				if msg := fmt.Sprint(r); strings.HasPrefix(msg, "would exceed memory") || strings.HasPrefix(msg, "max depth") {
+					c.Count("inspect=evaluation-guard")
+					return
+				}
 				c.Fail("inspect-panic", "INSPECT "+Hx([]byte(lit)), fmt.Sprint(r))
 			}
 		}()
@@ -398,7 +414,10 @@ func run(c *Ctx) {
 	// corpus first: the historical failures (fixed ones must now pass, recorded ones carry their sig)
 	for _, src := range []string{"a-(b-c)", "a/(b/c)", "a<(b<c)", "x[a:(b:c)]", "a=(b=c)", "a - -b", "a + ++b", "a + +b", "a;b", "1;2", "a;(b)",
 		"func f(){return a;b}", "a;if b {1}", "1+(a=>a)", "x[1:]", "(a+b)(1)", "\"a\\x07b\\x08\\x0c\\x0b\"", "(a=>a)(1)", "(a=>a)+1", "-(-a)", "(-a).b", "a||(b&&c)",
-		"a+(b+c)", "a;-b", "a;++b", "(1).x", "a;^b", "a +\n// c\n b", "func f(){return // c\na}", "{a:(b && c)}", "func f(){x};()=>y", "if b {c} else {return // t0\n}"} {
+		"a+(b+c)", "a;-b", "a;++b", "(1).x", "a;^b", "a +\n// c\n b", "func f(){return // c\na}", "{a:(b && c)}", "func f(){x};()=>y", "if b {c} else {return // t0\n}",
+		// a prefix ++ / -- statement right after a line comment; identifiers starting with an underscore after keywords (round 6)
+		"x = 1 // one\n++y", "// c\n--b", "f = func(n) { // bump\n ++n\n n }", "for i = 2 { println(i) // show\n++i }", "a /* c */\n++b",
+		"f = func(_x) { return _x }", "if _ok {1} else {2}", "for _n {_n}", "return_x = 1; return_x", "f = func(){return -1}", "f = func(){return [a,b]}", "if !x {1}", "for (a) {1}"} {
 		one(c, []byte(src), true, &s)
 	}
 	matrix(c, &s, c.Thorough())
